@@ -336,8 +336,13 @@ impl IoLoop {
                 // If our credentials are bad, the socket is dropped without a message,
                 // but we can detect that if we had gotten up to the Secure state before
                 // failing.
-                return match state {
-                    HandshakeState::Secure(_, _) => InvalidCredentialsSnafu.fail(),
+                // Only a dropped connection means that; any other failure in that state
+                // (a Secure challenge, a timeout, malformed data) keeps its own error.
+                return match (state, &err) {
+                    (HandshakeState::Secure(_, _), Error::UnexpectedSocketClose)
+                    | (HandshakeState::Secure(_, _), Error::IoErrorReadingSocket { .. }) => {
+                        InvalidCredentialsSnafu.fail()
+                    }
                     _ => Err(err),
                 };
             }
